@@ -1927,6 +1927,11 @@ func runC16(c *Ctx) {
 		nsig, per, nflt = 3600, 24, 400000
 	}
 	x.floats(nflt)
+	nstr := 1500
+	if c.Thorough {
+		nstr = 40000
+	}
+	x.strs(nstr)
 	for i := 0; i < nsig; i++ {
 		sig := c16GenSig(c, i)
 		if err := sig.write(); err != nil {
